@@ -111,6 +111,42 @@ def main():
                                   % ("/".join(bad), l2, x, grow, exp, got),
                                   {"kind": "grown", "list": l2, "probe": x, "expected": exp, "got": got}, tags=bad + ["grown"])
 
+    # the same LIST OBJECT searched, REWRITTEN IN PLACE to another sorted list of the same length (the way the index's
+    # lists are renumbered after a removal), and searched again with the same probe straight away: the expectation is the
+    # exported one for the new contents; neither the object's identity nor its length says anything about its contents
+    bylen = {}
+    for c in cases:
+        l = c["l"] if isinstance(c["l"], list) else []
+        bylen.setdefault(len(l), []).append(l)
+    n_inplace = 0
+    for n, ls in bylen.items():
+        if n == 0:
+            continue
+        for li, l in enumerate(ls[:: 2 if not thorough else 1]):
+            l2 = ls[(li * 7 + 3) % len(ls)]
+            if l2 == l:
+                continue
+            shared = list(l)
+            for pi, x in enumerate(probes):
+                exp = table[(tuple(l2), pi)]
+                got = []
+                for f in fns:
+                    try:
+                        shared[:] = l
+                        f(shared, x)
+                        shared[:] = l2
+                        got.append(_none(f(shared, x)))
+                    except Exception as e:  # noqa
+                        got = "raised %r" % (e,)
+                        break
+                n_eval += 1
+                n_inplace += 1
+                if got != exp:
+                    bad = [FUNCS[i] for i in range(5) if got == str(got) or got[i] != exp[i]]
+                    rep.violation("%s(%r, %r) right after the same call on the same list object holding %r: expected %r, got %r"
+                                  % ("/".join(bad), l2, x, l, exp, got),
+                                  {"kind": "inplace", "list": l2, "before": l, "probe": x, "expected": exp, "got": got}, tags=bad + ["inplace"])
+
     # ---- code -> spec ------------------------------------------------------
     rng = random.Random(rep.seed * 7919 + 18)
     n_rand = 60000 if thorough else 4000
